@@ -198,7 +198,7 @@ func (o *Oracle) Feed(rec *Record) {
 			}
 		}
 	case "restart":
-		if rec.Res == "" && rec.Panic == "" {
+		if (rec.Res == "" || rec.Res == "fresh-start") && rec.Panic == "" {
 			if havePre && o.bootMember[ev.N] && pre.Disk != nil && pre.Disk.Last == 0 && pre.Disk.SI == 0 && pre.Disk.Term == 0 && pre.Disk.Commit == 0 {
 				o.emptyRestart[ev.N] = true
 				o.S.EmptyRestarts++
@@ -458,9 +458,6 @@ func (o *Oracle) Feed(rec *Record) {
 				}
 			}
 			if t.wasLeaderAt != s.Term {
-				if o.emptyRestart[s.ID] && o.tainted == "" {
-					o.tainted = "leader-after-empty-storage-restart"
-				}
 				// newly became leader: C03 (a) every entry reported committed before is in its log
 				t.wasLeaderAt = s.Term
 				idxs := make([]uint64, 0, len(o.chosen))
